@@ -116,7 +116,7 @@ class Exec:
         if e.id in ("True", "False"): return k(B(e.id == "True"), st)
         if e.id in self.P.classes or e.id in ("dict", "set", "list", "tuple", "len", "isinstance", "zip",
                                               "enumerate", "range", "reversed", "all", "any", "sorted",
-                                              "min", "max", "str", "_id", "id", "Exception", "ValueError",
+                                              "min", "max", "str", "iter", "_id", "id", "Exception", "ValueError",
                                               "TypeError", "KeyError", "frozenset", "object", "cast", "sum", "Sequence", "type", "super", "print", "stderr"):
             return k(SClosure("name", e.id), st)
         if e.id in self.P.func_module:
@@ -205,9 +205,11 @@ class Exec:
                 g = self.P.find_getter(cls, name)
                 if g: return self.call_function(g[1], [o], {}, st, k, owner=cls)
                 if self.P.find_method(cls, name): return k(SClosure("method", name, recv=o), st)
+                if name == "keys" and self.P.find_method(cls, "__iter__"):       # inherited from collections.abc.Mapping
+                    return k(SClosure("method", name, recv=o), st)
                 raise Unsupported(f"attribute {c.cls}.{name}")
             return k(SClosure("method", name, recv=o), st)        # dict / list / set methods
-        if isinstance(o, (SSeq, SSetV, SDictView, SSubSet)):
+        if isinstance(o, (SSeq, SSetV, SDictView, SSubSet, SDictV)):
             return k(SClosure("method", name, recv=o), st)
         if isinstance(o, SClosure) and o.kind == "module":
             if name in self.P.classes: return k(SClosure("name", name), st)
@@ -677,6 +679,8 @@ class Exec:
                 st = st.fact(S.seq_norm(n, arr, vs))
                 st = st.fact(z3.ForAll([i], z3.Implies(z3.And(i >= 0, i < n), arr[i] == c.val[karr[i]])))
                 return st, SSeq(c.vty, n, arr, setview=ops.vals_mem(c.kty, c.vty, c.dom, c.val))
+        if isinstance(it, SDictV):
+            it = SSetV(it.kty, it.dom)
         if isinstance(it, SSetV):
             st, n, karr = ops.set_keyseq(st, it.elem, it.mem)
             return st, SSeq(it.elem, n, self._norm(karr, n, S.sort_of(it.elem)), setview=it.mem)
